@@ -10,9 +10,35 @@ Ltac Zify.zify_post_hook ::= Z.div_mod_to_equations.
 Open Scope Z_scope.
 Local Arguments Z.of_nat : simpl never.
 
+(* innermost conditionals first, so that every hypothesis is a plain comparison *)
+Ltac split_ifs_goal :=
+  repeat (match goal with
+          | |- context [if ?c then _ else _] =>
+              lazymatch c with
+              | context [if _ then _ else _] => fail
+              | _ => let E := fresh "E" in destruct c eqn:E
+              end
+          end; cbv beta iota).
+(* A guard tie is proved without looking at how the Go function arranges its comparison (if n < K
+   { return err }, the inverted if n >= K { return nil }, a named bound ...): lengths become opaque
+   integers, every definition is unfolded down to comparisons on Z, each conditional on either side is
+   decided by case analysis and the cases closed by linear arithmetic. *)
+Ltac tie_cases :=
+  repeat match goal with
+         | |- context [Z.of_nat (@length ?A ?d)] =>
+             let n := fresh "n" in let En := fresh "En" in
+             remember (Z.of_nat (@length A d)) as n eqn:En; clear En
+         end;
+  cbv -[Z.ltb Z.gtb Z.leb Z.geb Z.eqb Z.lt Z.gt Z.le Z.ge Z.sub Z.add Z.of_nat Z.to_nat];
+  repeat match goal with
+         | |- context [Z.of_nat ?c] => let v := eval vm_compute in (Z.of_nat c) in change (Z.of_nat c) with v
+         end;
+  split_ifs_goal;
+  first [reflexivity | lia | exfalso; lia].
+
 (* ---- offline signature ---- *)
 Theorem tie_off_min_data n : g_offline_signature_validateMinimumOfflineSignatureData n = negb (n <? Z.of_nat OFF_HDR).
-Proof. unfold g_offline_signature_validateMinimumOfflineSignatureData. change (Z.of_nat OFF_HDR) with 6. destruct (n <? 6); reflexivity. Qed.
+Proof. unfold g_offline_signature_validateMinimumOfflineSignatureData. tie_cases. Qed.
 Theorem off_min_data_rejects d dt :
   g_offline_signature_validateMinimumOfflineSignatureData (Z.of_nat (length d)) = false -> read_offline_signature d dt = Err.
 Proof.
@@ -26,13 +52,13 @@ Theorem tie_off_dest_sig_type t :
   g_offline_signature_validateDestinationSignatureType t = (if off_sig_size t =? 0 then None else Some (off_sig_size t)).
 Proof. unfold g_offline_signature_validateDestinationSignatureType. rewrite tie_off_sig_size. reflexivity. Qed.
 Theorem tie_off_key_data n k : g_offline_signature_validateTransientKeyData n k = negb (n <? k).
-Proof. unfold g_offline_signature_validateTransientKeyData. destruct (n <? k); reflexivity. Qed.
+Proof. unfold g_offline_signature_validateTransientKeyData. tie_cases. Qed.
 Theorem tie_off_sig_data n k : g_offline_signature_validateSignatureData n k = negb (n <? k).
-Proof. unfold g_offline_signature_validateSignatureData. destruct (n <? k); reflexivity. Qed.
+Proof. unfold g_offline_signature_validateSignatureData. tie_cases. Qed.
 
 (* ---- MetaLeaseSet ---- *)
 Theorem tie_meta_min_size n : g_meta_leaseset_validateMinSize n = negb (n <? c_meta_leaseset_META_LEASESET_MIN_SIZE).
-Proof. unfold g_meta_leaseset_validateMinSize. change c_meta_leaseset_META_LEASESET_MIN_SIZE with 505. destruct (n <? 505); reflexivity. Qed.
+Proof. unfold g_meta_leaseset_validateMinSize. tie_cases. Qed.
 Theorem meta_min_size_rejects d : g_meta_leaseset_validateMinSize (Z.of_nat (length d)) = false -> read_meta_lease_set d = Err.
 Proof.
   rewrite tie_meta_min_size. intros H. unfold read_meta_lease_set, read_ls2_header.
@@ -41,16 +67,16 @@ Proof.
 Qed.
 Theorem tie_meta_entry_count n : g_meta_leaseset_validateEntryCount n =
   negb ((n <? c_meta_leaseset_META_LEASESET_MIN_ENTRIES) || (n >? c_meta_leaseset_META_LEASESET_MAX_ENTRIES)).
-Proof. unfold g_meta_leaseset_validateEntryCount. change c_meta_leaseset_META_LEASESET_MIN_ENTRIES with 1. change c_meta_leaseset_META_LEASESET_MAX_ENTRIES with 16. destruct ((n <? 1) || (n >? 16)); reflexivity. Qed.
+Proof. unfold g_meta_leaseset_validateEntryCount. tie_cases. Qed.
 Theorem tie_meta_entry_min_size i n : g_meta_leaseset_validateEntryMinSize i n = negb (n <? Z.of_nat ME_MIN).
-Proof. unfold g_meta_leaseset_validateEntryMinSize. change (Z.of_nat ME_MIN) with 40. destruct (n <? 40); reflexivity. Qed.
+Proof. unfold g_meta_leaseset_validateEntryMinSize. tie_cases. Qed.
 Theorem tie_meta_header_size n : g_meta_leaseset_validateHeaderDataSize n = negb (n <? 8).
-Proof. unfold g_meta_leaseset_validateHeaderDataSize. destruct (n <? 8); reflexivity. Qed.
+Proof. unfold g_meta_leaseset_validateHeaderDataSize. tie_cases. Qed.
 
 (* ---- EncryptedLeaseSet ---- *)
 Theorem tie_els_min_size d : g_encrypted_leaseset_validateEncryptedLeaseSetSize d =
   negb (Z.of_nat (length d) <? c_encrypted_leaseset_ENCRYPTED_LEASESET_MIN_SIZE).
-Proof. unfold g_encrypted_leaseset_validateEncryptedLeaseSetSize. change c_encrypted_leaseset_ENCRYPTED_LEASESET_MIN_SIZE with 109. destruct (_ <? 109); reflexivity. Qed.
+Proof. unfold g_encrypted_leaseset_validateEncryptedLeaseSetSize. tie_cases. Qed.
 Theorem els_min_size_rejects d : g_encrypted_leaseset_validateEncryptedLeaseSetSize d = false -> read_encrypted_lease_set d = Err.
 Proof.
   rewrite tie_els_min_size. intros H. unfold read_encrypted_lease_set.
@@ -58,21 +84,21 @@ Proof.
 Qed.
 Theorem tie_els_encrypted_data_length d : g_encrypted_leaseset_validateEncryptedDataLength d =
   negb (Z.of_nat (length d) <? Z.of_nat (ELS_EPH + ELS_NONCE + ELS_TAG)).
-Proof. unfold g_encrypted_leaseset_validateEncryptedDataLength. change (Z.of_nat (ELS_EPH + ELS_NONCE + ELS_TAG)) with 60. destruct (_ <? 60); reflexivity. Qed.
+Proof. unfold g_encrypted_leaseset_validateEncryptedDataLength. tie_cases. Qed.
 
 (* ---- KeysAndCert ---- *)
 Theorem tie_kac_data_size n : g_keys_and_cert_validateKeysAndCertDataSize n = negb (n <? KAC_MIN).
-Proof. unfold g_keys_and_cert_validateKeysAndCertDataSize. change KAC_MIN with 387. destruct (n <? 387); reflexivity. Qed.
+Proof. unfold g_keys_and_cert_validateKeysAndCertDataSize. tie_cases. Qed.
 Theorem kac_data_size_rejects d : g_keys_and_cert_validateKeysAndCertDataSize (Z.of_nat (length d)) = false -> read_keys_and_cert d = Err.
 Proof.
   rewrite tie_kac_data_size. intros H. unfold read_keys_and_cert.
   destruct (Z.of_nat (length d) <? KAC_MIN); [reflexivity|discriminate].
 Qed.
 Theorem tie_kac_min_data_length n m : g_keys_and_cert_validateMinimumDataLength n m = negb (n <? m).
-Proof. unfold g_keys_and_cert_validateMinimumDataLength. destruct (n <? m); reflexivity. Qed.
+Proof. unfold g_keys_and_cert_validateMinimumDataLength. tie_cases. Qed.
 (* NewKeysAndCert's padding check *)
 Theorem tie_kac_padding_size pad c s : g_keys_and_cert_validatePaddingSize pad c s = (Z.of_nat (length pad) =? KAC_DATA - c - s).
-Proof. unfold g_keys_and_cert_validatePaddingSize. change KAC_DATA with 384. destruct (_ =? _); reflexivity. Qed.
+Proof. unfold g_keys_and_cert_validatePaddingSize. tie_cases. Qed.
 Theorem kac_padding_size_rejects kc p pad s :
   g_keys_and_cert_validatePaddingSize pad (kc_crypto_size_of kc) (kc_signing_pubkey_size kc) = false ->
   new_keys_and_cert kc p pad s = Err.
@@ -85,23 +111,33 @@ Qed.
 
 (* ---- Certificate ---- *)
 Theorem tie_cert_type_valid t : g_certificate_validateCertType t = cert_type_valid t.
-Proof.
-  unfold g_certificate_validateCertType, cert_type_valid, sw_lookup, sw_certificate_validateCertType, sw_certificate_validateCertType_default, g_memZ, memZ.
-  cbn [existsb].
-  repeat match goal with |- context [Z.eqb ?a ?b] => destruct (Z.eqb a b) end; reflexivity.
-Qed.
-(* NewCertificateWithType refuses whatever validateCertType / validateCertPayload refuse *)
+Proof. reflexivity. Qed.
+(* innermost conditionals of a hypothesis first *)
+Ltac split_ifs_in H :=
+  repeat (match type of H with
+          | context [if ?c then _ else _] =>
+              lazymatch c with
+              | context [if _ then _ else _] => fail
+              | _ => let E := fresh "E" in destruct c eqn:E
+              end
+          end; cbv beta iota in H).
+(* NewCertificateWithType refuses whatever validateCertType / validateCertPayload refuse.  The proof
+   does not depend on how the Go function arranges its comparisons (a chain of ifs, a switch over
+   the type with an if per case, a named length): each conditional of the regenerated definition is
+   decided by case analysis, and the model's own conditions by linear arithmetic. *)
 Theorem cert_ctor_guards t payload :
   g_certificate_validateCertType t && g_certificate_validateCertPayload t payload = false ->
   new_certificate_with_type t payload = Err.
 Proof.
-  rewrite tie_cert_type_valid. unfold new_certificate_with_type, g_certificate_validateCertPayload.
+  intros H. unfold new_certificate_with_type, cert_type_valid.
+  destruct (g_certificate_validateCertType t); cbn [negb andb] in *; [|reflexivity].
   change c_certificate_CERT_MAX_PAYLOAD_SIZE with 65535. change c_certificate_CERT_NULL with 0. change c_certificate_CERT_HIDDEN with 2.
   change c_certificate_CERT_SIGNED with 3. change c_certificate_CERT_EMPTY_PAYLOAD_SIZE with 0.
   change c_certificate_CERT_SIGNED_PAYLOAD_SHORT with 40. change c_certificate_CERT_SIGNED_PAYLOAD_LONG with 72.
-  destruct (cert_type_valid t); cbn [negb andb]; [|reflexivity].
-  destruct (Z.of_nat (length payload) >? 65535); [reflexivity|].
-  destruct ((t =? 0) && (Z.of_nat (length payload) >? 0)); [reflexivity|].
-  destruct ((t =? 2) && (Z.of_nat (length payload) >? 0)); [reflexivity|].
-  destruct ((t =? 3) && negb (Z.of_nat (length payload) =? 40) && negb (Z.of_nat (length payload) =? 72)); [reflexivity|discriminate].
+  cbv zeta. remember (Z.of_nat (length payload)) as n eqn:En.
+  repeat match goal with |- (if ?c then Err else _) = Err => let E := fresh "C" in destruct c eqn:E; [reflexivity|] end.
+  exfalso. unfold g_certificate_validateCertPayload in H. cbv zeta in H. rewrite <- En in H.
+  clear En. cbv -[Z.ltb Z.gtb Z.leb Z.geb Z.eqb Z.lt Z.gt Z.le Z.ge] in H.
+  split_ifs_in H; try discriminate H; lia.
 Qed.
+
